@@ -177,6 +177,8 @@ fn to_deltas(code_map: &CodeMap, semtoks: Vec<SemTok>) -> Vec<SemanticToken> {
 
             result
         })
+        // Tokens may be empty (e.g. an expression that is still missing while typing); those should not be emitted
+        .filter(|(location, _)| location.end.column > location.begin.column)
         .collect_vec();
 
     let mut prev_line = 0;
